@@ -83,7 +83,9 @@ def c02(tier):
         dict(mc=(W, wcfg("fault", q)), max_progs=80 if q else 2000, allk=True, bset=[7, 16, 126, 1024],
              filt=lambda p: p["mfault"]["at"] == 0),
     ], assumptions=BASE_ASSUME + ["the wire tap hook (verifWire) reports exactly the bytes of successful transport writes"],
-        extra=lambda: writer.suite_wire("C02", tier))
+        extra=[lambda: writer.suite_wire("C02", tier),
+               # "always" also covers concurrent WriteControl callers and the reader's replies (frames stay whole and well-formed)
+               lambda: conc.run_conc_check("C02", tier, 300 if q else 8000, 40 if q else 800, light=True)])
 
 
 def c09(tier):
